@@ -260,6 +260,12 @@ class ScriptedBackend : public FlatBackend< MIPBackend<ScriptedBackend> > {
     NoteTypes();
     SetStatus({ std::atoi(sget("code", "0").c_str()), sget("msg", "scripted result") });
     AddToSolverMessage(sget("extra_msg", ""));
+    // alternative solutions (script key altsols=k, effective when the user asked for them with sol:stub)
+    if (need_multiple_solutions())
+      for (int k = std::atoi(sget("altsols", "0").c_str()); k > 0; --k) {
+        auto sol = GetSolution();
+        ReportIntermediateSolution({ sol.primal, sol.dual, sol.objvals });
+      }
     BaseBackend::ReportResults();
     dump();
   }
